@@ -340,6 +340,7 @@ func (ex *Exec) visitInstr(fr *frame, instr ssa.Instruction) continuation {
 	case *ssa.Store:
 		addr := ex.derefPtr(fr, fr.get(instr.Addr), "store")
 		ex.sharedAccess(fr, instr.Addr)
+		ex.raceWrite(fr, addr, "memory")
 		store(addr, copyVal(fr.get(instr.Val)))
 
 	case *ssa.If:
@@ -453,6 +454,7 @@ func (ex *Exec) visitInstr(fr *frame, instr ssa.Instruction) continuation {
 		if m == nil {
 			ex.crash("assignment to entry in nil map")
 		}
+		ex.raceMapWrite(fr, m)
 		ex.mapUpdate(m, fr.get(instr.Key), copyVal(fr.get(instr.Value)))
 
 	case *ssa.TypeAssert:
